@@ -133,6 +133,26 @@ def parseWith (pv2 : Bytes → GoResult (Option Info × Bytes)) (s : Bytes) : Go
   else .ok (none, s)
 
 def parse := parseWith parseV2
+
+/-- What a reader of the wrapped connection still gets when `ReadProxyProtocol` returned an ERROR (cmd/broker then drops the
+connection; modelled so that the rejection theorems can state how much of the stream the parser consumed):
+`Peek` consumes nothing; `readProxyV1Line` stops after 256 bytes (or at EOF); a malformed v1 line is consumed up to its LF;
+a failing `io.ReadFull` has drained the stream; a v2 header with a too-short address block is consumed with its payload. -/
+def errRest (s : Bytes) : Bytes :=
+  if s.length < 5 then s
+  else if s.take 5 = proxyWord then
+    match readLine s with
+    | .ok (_, rest) => rest
+    | _ => s.drop 256
+  else if s.take 5 = v2Sig5 then
+    if s.length < 12 then s
+    else if s.take 12 = v2Sig then
+      if s.length < 16 then []
+      else
+        let length := (be16 (((s.take 16).drop 14).take 2)).toNat
+        if (s.drop 16).length < length then [] else (s.drop 16).drop length
+    else s
+  else s
 /-- the code before `fixes/C26-proxy-v2-family-nibble.patch` -/
 def parseOld := parseWith parseV2Old
 
